@@ -482,6 +482,12 @@ def library_hooks(it: "Interp") -> dict:
             return PointObj(args[0].normalized())
         if len(args) == 1 and isinstance(args[0], Table) and len(args[0].shape) == 1:
             return PointObj(args[0])  # homogeneous coordinates handed over as one array
+        if len(args) == 1 and isinstance(args[0], list) and args[0]:
+            try:
+                cs = [it.lp(a_) for a_ in args[0]]
+                return PointObj(Table((len(cs),), {(i,): c for i, c in enumerate(cs)}), normalised=False)
+            except Unknown:
+                return Opaque("point")
         if args and all(isinstance(a_, Ratio) for a_ in args) and all((a_.den - args[0].den).is_zero() for a_ in args):
             coords = [a_.num for a_ in args] + [args[0].den]  # (n_i / w, 1) ~ (n_i, w)
             return PointObj(Table((len(coords),), {(i,): c for i, c in enumerate(coords)}))
@@ -572,6 +578,8 @@ class Interp:
                 return e.value
             if isinstance(e.value, (int, float)):
                 return LP.const(Fraction(e.value).limit_denominator(10 ** 9)) if not isinstance(e.value, int) else e.value
+            if isinstance(e.value, complex):
+                return LP.const(Fraction(e.value.real).limit_denominator(10 ** 9)) + LP.const(Fraction(e.value.imag).limit_denominator(10 ** 9)) * LP.sym("i")
             return Opaque("constant")
         if isinstance(e, ast.Name):
             if e.id in env:
@@ -2247,3 +2255,104 @@ def rule_components(run: Run, prog: Program) -> int:
         else:
             run.add("E19.comp", fn.short, label, UNDECIDED, f"{unread} case(s) not read ({first_unread}); {cases} decided", loc)
     return n_ob
+
+
+# ---------------------------------------------------------------------------------------------- the distance of two points of the plane (C09)
+def rule_point_dist(run: Run, prog: Program) -> int:
+    run.rule("E19.dist", "_point_dist for two points of the plane given by ARBITRARY representatives (x, y, w): the squared value of the returned expression "
+                         "4 |sqrt([p,q,I][p,q,J]) / ([p,I,J][q,I,J])|, with the circular points read from the module and i^2 = -1, is the squared Euclidean "
+                         "distance ((x_p/w_p - x_q/w_q)^2 + (y_p/w_p - y_q/w_q)^2) as a polynomial identity")
+    fn = prog.find_func("_point_dist") or prog.find_func("geometer.operators._point_dist")
+    if fn is None:
+        run.add("E19.dist", "_point_dist", "Euclidean distance in the plane", UNDECIDED, "_point_dist not found", "")
+        return 0
+    fn = prog.body_of(fn)
+    params = [a.arg for a in fn.node.args.args]
+    if len(params) != 2:
+        return 0
+    label, loc = "Euclidean distance in the plane", fn.loc
+    it = Interp(prog, None, {})
+    it.rules["i"] = (2, LP.const(-1))
+    it.hooks = library_hooks(it)
+    env: dict = {params[0]: PointSym("p", 2), params[1]: PointSym("q", 2)}
+    # the circular points as the module defines them
+    for name in ("I", "J"):
+        gv = prog.global_value(f"geometer.point.{name}")
+        if gv is None:
+            run.add("E19.dist", fn.short, label, UNDECIDED, f"module constant {name} not found", loc)
+            return 1
+        try:
+            env[name] = it.ev(gv[1], {})
+        except (Unknown, NotPolynomial) as ex:
+            env[name] = Opaque(str(ex))
+        if not isinstance(env[name], PointObj):
+            run.add("E19.dist", fn.short, label, UNDECIDED, f"module constant {name} is not read as a point with constant coordinates", loc)
+            return 1
+    ret = None
+
+    def walk(stmts):
+        nonlocal ret
+        for st in stmts:
+            if ret is not None:
+                return
+            if isinstance(st, ast.Return):
+                ret = st.value
+                return
+            if isinstance(st, ast.With):
+                walk(st.body)
+                continue
+            it.stmt(st, env)
+    try:
+        walk(fn.node.body)
+    except (_Done, _Raise):
+        pass
+    except (Unknown, NotPolynomial) as ex:
+        run.add("E19.dist", fn.short, label, UNDECIDED, f"not read: {str(ex)[:100]}", loc)
+        return 1
+    if ret is None:
+        run.add("E19.dist", fn.short, label, UNDECIDED, "no return expression found", loc)
+        return 1
+
+    def sq(e: ast.expr) -> tuple[LP, LP]:
+        """(numerator, denominator) of the SQUARE of the magnitude of e"""
+        if isinstance(e, ast.BinOp) and isinstance(e.op, ast.Mult):
+            a, b = sq(e.left), sq(e.right)
+            return a[0] * b[0], a[1] * b[1]
+        if isinstance(e, ast.BinOp) and isinstance(e.op, ast.Div):
+            a, b = sq(e.left), sq(e.right)
+            return a[0] * b[1], a[1] * b[0]
+        if isinstance(e, ast.Call):
+            f_ = e.func
+            nm = f_.attr if isinstance(f_, ast.Attribute) else getattr(f_, "id", "")
+            if nm in ("abs", "absolute") and len(e.args) == 1:
+                return sq(e.args[0])
+            if nm in ("sqrt", "csqrt") and len(e.args) == 1:
+                v = it.lp(it.ev(e.args[0], env))
+                return v, LP.const(1)
+        v = it.lp(it.ev(e, env))
+        return v * v, LP.const(1)
+    try:
+        num, den = sq(ret)
+        num, den = num.rewrite(it.rules), den.rewrite(it.rules)
+    except (Unknown, NotPolynomial) as ex:
+        run.add("E19.dist", fn.short, label, UNDECIDED, f"the returned expression is not read as c |sqrt(A) / B|: {str(ex)[:80]}", loc)
+        return 1
+    px, py, pw = [LP.sym("p0") * LP.sym("w_p"), LP.sym("p1") * LP.sym("w_p"), LP.sym("w_p")]
+    qx, qy, qw = [LP.sym("q0") * LP.sym("w_q"), LP.sym("q1") * LP.sym("w_q"), LP.sym("w_q")]
+    ref_num = (px * qw - qx * pw) * (px * qw - qx * pw) + (py * qw - qy * pw) * (py * qw - qy * pw)
+    ref_den = pw * pw * qw * qw
+    imaginary = any(s_ == "i" for poly in (num, den) for mono in poly.t for s_, _e in mono)
+    resid = (num * ref_den - den * ref_num).rewrite(it.rules)
+    if den.is_zero():
+        run.add("E19.dist", fn.short, label, VIOLATION, "the denominator of the returned expression vanishes identically", loc)
+    elif resid.is_zero() and not imaginary:
+        run.add("E19.dist", fn.short, label, PROVEN, "the square of the returned expression is the squared Euclidean distance of the dehomogenised points, for every representative", loc)
+    else:
+        ratio = None
+        for c_ in (2, 4, 16, Fraction(1, 2), Fraction(1, 4), Fraction(1, 16), -1):
+            if (num * ref_den - den * ref_num * LP.const(c_)).rewrite(it.rules).is_zero():
+                ratio = c_
+        run.add("E19.dist", fn.short, label, VIOLATION,
+                "the square of the returned expression is not the squared Euclidean distance" + (f": it is {ratio} times that" if ratio is not None else "")
+                + (" (an imaginary part is left)" if imaginary else ""), loc)
+    return 1
